@@ -799,6 +799,8 @@ def eval_clause_concrete(c, text, inputs, extra):
     env = {k: conv(v) for k, v in inputs.items()}
     for k in list(env):
         env['old!' + k] = env[k]
+    for k, v in (inputs.get('ghost') or {}).items():      # ghost names of the contract (spec_env), with their model values
+        env.setdefault(k, conv(v))
     env.update(extra)
     fr = Frame('<replay>', m, env)
     try:
